@@ -24,13 +24,35 @@ def _printed(c):
         c.print_ranking()
 
 
+def vandalise(r, depth=0):
+    """scribble on a returned container (and the containers inside it)"""
+    if depth > 3:
+        return
+    try:
+        if isinstance(r, list):
+            for x in list(r):
+                vandalise(x, depth + 1)
+            r.append('scribble')
+            r.reverse()
+            del r[:]
+        elif isinstance(r, dict):
+            for x in list(r.values()):
+                vandalise(x, depth + 1)
+            r.clear()
+            r['scribble'] = 1
+        elif isinstance(r, set):
+            r.clear()
+    except Exception:
+        pass
+
+
 READERS = {
     'to_matrix': lambda c: c.to_matrix(),
     'to_matrix-with-bib': lambda c: c.to_matrix(['bib']),
-    'trials': lambda c: list(c.trials),
-    'trial_objs': lambda c: list(c.trial_objs),
-    'remaining': lambda c: list(c.remaining),
-    'eliminated': lambda c: list(c.eliminated),
+    'trials': lambda c: c.trials,
+    'trial_objs': lambda c: c.trial_objs,
+    'remaining': lambda c: c.remaining,
+    'eliminated': lambda c: c.eliminated,
     'is_finished+is_running': lambda c: (c.is_finished, c.is_running),
     'standings': lambda c: [(j.place, j.ranking_key, j.has_retired) for j in c.ranked_jumpers],
     'print_ranking': _printed,
@@ -262,11 +284,21 @@ class Monitor(object):
         s0 = snap(comp)
         for nm in sorted(READERS):
             try:
-                READERS[nm](comp)
+                r = READERS[nm](comp)
+                r2 = READERS[nm](comp)
             except Exception:
                 ctx.count('unjudged.read-accessor-raised')
                 continue
             ctx.count('eval.read-accessor-probe')
+            # asked twice, the same answer; and what is handed out belongs to the caller: scribbling on it (clearing the
+            # rows of the card, appending to a list of trials) must not reach the competition
+            try:
+                if repr(r) != repr(r2) and ' at 0x' not in repr(r):
+                    ctx.violation('read-accessor-answers-differently-when-asked-twice:%s' % nm, self.describe(self.shadow(comp), 'read', nm),
+                                  repr(r)[:200], repr(r2)[:200])
+            except Exception:
+                pass
+            vandalise(r)
             s1 = snap(comp)
             if s1 != s0:
                 ctx.violation('read-accessor-changes-the-competition:%s:%s' % (nm, '+'.join(snap_diff(s0, s1))[:80]),
@@ -677,9 +709,9 @@ class Monitor(object):
 
 
 # --------------------------------------------------------------------------- explorer
-BIBS = 'ABCD'
+BIBS = 'ABCDEF'
 # start lists as callers number them: letters, integers from 0 (a falsy bib), digit strings that differ only by leading zeros
-BIB_SETS = {'letters': (list('ABCD'), 'E'), 'int0': ([0, 1, 2, 3], 4), 'zeros': (['0', '00', '1', '01'], '10')}
+BIB_SETS = {'letters': (list('ABCDEF'), 'G'), 'int0': ([0, 1, 2, 3, 4, 5], 6), 'zeros': (['0', '00', '1', '01', '000', '001'], '10')}
 
 
 class Explorer(object):
@@ -696,7 +728,7 @@ class Explorer(object):
         self.base_height = D('1.00')
         self.float_heights = False
         self.bibs = list(BIBS)        # the start list's bib vocabulary (see BIB_SETS)
-        self.extra_bib = 'E'
+        self.extra_bib = 'G'
 
     def use_bibs(self, name):
         self.bibs, self.extra_bib = BIB_SETS[name]
